@@ -11,12 +11,14 @@ from bind import replay_packet as rp
 OWNED = {"C20_Total", "C20_Structural", "C20_ParsedEqual", "C20_ChangeMakesUnequal", "C20_Pattern"}
 # classes of one module written with ONE shared options dictionary object (__bisturi__ = WIRE in each of them)
 GEN_SHARED = {"share_opts": True, "vectorize": True}
+# the classes are defined inside a function (their instances cannot be pickled: prototypes are cloned another way)
+GEN_LOCAL = {"local_classes": True, "vectorize": True}
 
 
 def run(tier, seed):
     v = common.Verdict("C20", tier, seed)
     common.bind_repo()
-    gens = [rp.GEN_OFF, None, GEN_SHARED]
+    gens = [rp.GEN_OFF, None, GEN_SHARED, GEN_LOCAL]
     vp.exhaustive_part(v, "U_C20", [], gens, OWNED, always_judge=200 if tier == "quick" else 2000)
     v.cov["exhaustive"] = True
     v.cov["rule"] = ("TLC enumerates U_C20 x every value assignment from the two-element domains x (no change | every field re-assigned to "
